@@ -8,6 +8,7 @@ import (
 	"os"
 	"os/exec"
 	"path/filepath"
+	"runtime/debug"
 	"sort"
 	"strconv"
 	"strings"
@@ -167,6 +168,54 @@ func VerifDir() string {
 	return "/verif"
 }
 
+// safeRun executes one run; a panic that escapes the check (the library
+// panicked underneath an operation the check did not guard) is reported as a
+// violation of the property being checked: an operation that crashes did not
+// behave as the property says. The class keeps the panic message without
+// numbers and the innermost pkg/ggql frame.
+func safeRun(c Check, t *tape.Tape, opt RunOpt) (res Result) {
+	defer func() {
+		if r := recover(); r != nil {
+			msg := fmt.Sprint(r)
+			st := string(debug.Stack())
+			frame := ""
+			for _, ln := range strings.Split(st, "\n") {
+				if strings.Contains(ln, "github.com/uhn/ggql/pkg/ggql.") {
+					frame = strings.TrimSpace(ln)
+					if i := strings.LastIndex(frame, "("); i > 0 {
+						frame = frame[:i]
+					}
+					frame = strings.TrimPrefix(frame, "github.com/uhn/ggql/pkg/ggql.")
+					break
+				}
+			}
+			var b strings.Builder
+			for _, ch := range msg {
+				if ch < '0' || ch > '9' {
+					b.WriteRune(ch)
+				}
+			}
+			cls := b.String()
+			if len(cls) > 80 {
+				cls = cls[:80]
+			}
+			if len(st) > 2500 {
+				st = st[:2500]
+			}
+			if frame == "" {
+				res.Fatal = "panic in the harness (no pkg/ggql frame on the stack): " + msg + "\n" + st
+				return
+			}
+			if res.Evaluations == 0 {
+				res.Evaluations = 1
+			}
+			res.Violations = append(res.Violations, Violation{Property: c.ID(), Class: "panic:" + frame + ":" + cls,
+				Detail: "the library panicked during the run: " + msg + "\n" + st})
+		}
+	}()
+	return c.Run(t, opt)
+}
+
 func stableClasses(vs []Violation) string {
 	var cs []string
 	for _, v := range vs {
@@ -233,7 +282,7 @@ func RunWorker(c Check, tier string, seed uint64, worker, of int, b Budget) int 
 				worker, idx, rs, wdLimit, c.ID(), rs, tier)
 			os.Exit(2)
 		})
-		res := c.Run(tp, opt)
+		res := safeRun(c, tp, opt)
 		wd.Stop()
 		if res.Fatal != "" {
 			sum.Fatal = fmt.Sprintf("run %d (seed %d): %s", idx, rs, res.Fatal)
@@ -243,7 +292,7 @@ func RunWorker(c Check, tier string, seed uint64, worker, of int, b Budget) int 
 		// tape must give the same signature and the same verdict.
 		if i < 2 {
 			writeJournal(idx, rs, tp.Rec())
-			res2 := c.Run(tape.Replay(tp.Rec()), RunOpt{Tier: tier})
+			res2 := safeRun(c, tape.Replay(tp.Rec()), RunOpt{Tier: tier})
 			sum.SelfTestRuns++
 			// (reports of the race detector are excluded: it can miss a race in one
 			// of two identical executions, see DESIGN 3.4)
@@ -292,7 +341,7 @@ func RunWorker(c Check, tier string, seed uint64, worker, of int, b Budget) int 
 			fails := func(cand []uint64) bool {
 				writeJournal(idx, rs, cand)
 				for k := 0; k < tries; k++ {
-					r := c.Run(tape.Replay(cand), RunOpt{Tier: tier})
+					r := safeRun(c, tape.Replay(cand), RunOpt{Tier: tier})
 					u, _ := unknownViolations(findings, r.Violations)
 					for _, x := range u {
 						if x.Class == class {
@@ -308,7 +357,7 @@ func RunWorker(c Check, tier string, seed uint64, worker, of int, b Budget) int 
 			} else {
 				sum.Counters["violation_not_reproduced_on_replay"]++
 			}
-			final := c.Run(tape.Replay(min), RunOpt{Tier: tier, WantSample: true, Replay: true})
+			final := safeRun(c, tape.Replay(min), RunOpt{Tier: tier, WantSample: true, Replay: true})
 			fv := v
 			fu, _ := unknownViolations(findings, final.Violations)
 			for _, x := range fu {
@@ -658,7 +707,7 @@ func RunReplay(c Check, rf *ReplayFile) int {
 		return 0
 	}
 	fmt.Printf("replaying property=%s seed=%d run_index=%d tape_len=%d (original %d)\n", rf.Property, rf.Seed, rf.RunIndex, len(rf.Tape), rf.OrigLen)
-	res := c.Run(tape.Replay(rf.Tape), RunOpt{Tier: rf.Tier, WantSample: true, Replay: true})
+	res := safeRun(c, tape.Replay(rf.Tape), RunOpt{Tier: rf.Tier, WantSample: true, Replay: true})
 	if res.Fatal != "" {
 		fmt.Println("FATAL", res.Fatal)
 		return 2
@@ -677,7 +726,7 @@ func RunReplay(c Check, rf *ReplayFile) int {
 			if hit {
 				break
 			}
-			res = c.Run(tape.Replay(rf.Tape), RunOpt{Tier: rf.Tier, WantSample: true, Replay: true})
+			res = safeRun(c, tape.Replay(rf.Tape), RunOpt{Tier: rf.Tier, WantSample: true, Replay: true})
 		}
 	}
 	if res.Sample != nil {
